@@ -680,9 +680,60 @@ def _passes(ctx):
     return [("full2", 3, 1, 2, 2), ("narrow3", 1, 1, 3, 3), ("core3", 0, 0, 3, 3), ("deep", 0, 0, 4, 2)]
 
 
+def large_memmove(ctx):
+    """ffi.memmove over LARGE overlapping areas: sizes on both sides of 4 KiB / 64 KiB / 1 MiB
+    (block-wise or chunked copy strategies only show beyond such a size).  Exhaustive over the
+    listed (size, dst offset, src offset, n, kind pair) product; model = copy through bytes()."""
+    import cffi
+    ffi = cffi.FFI()
+    n_cases = 0
+    sizes = [4096, 65536, 65537, 1 << 20] if not ctx.quick else [4096, 65537, (1 << 20) + 3]
+    for S in sizes:
+        total = 3 * S + 64
+        base = (bytes(range(251)) * (total // 251 + 1))[:total]
+        offs = sorted({0, 1, 7, S // 2, S - 1, S, S + 1})
+        lens = sorted({S - 1, S, S + 1, 2 * S + 1})
+        for kinds in (("cdata", "cdata"), ("buffer", "cdata"), ("cdata", "bytearray"), ("bytearray", "bytearray")):
+            for do_ in offs:
+                for so in offs:
+                    for n in lens:
+                        if do_ + n > total or so + n > total or do_ == so:
+                            continue
+                        if not (abs(do_ - so) < n):
+                            continue                 # only overlapping areas are interesting here
+                        ba = bytearray(base)          # period 251: no two overlapping windows look alike
+                        model = bytearray(ba)
+                        model[do_:do_ + n] = bytes(model[so:so + n])
+                        whole = ffi.from_buffer(ba)
+
+                        def side(kind, off):
+                            if kind == "cdata":
+                                return whole + off
+                            if kind == "buffer":
+                                return ffi.buffer(whole + off, total - off)
+                            return memoryview(ba)[off:]
+                        n_cases += 1
+                        try:
+                            ffi.memmove(side(kinds[0], do_), side(kinds[1], so), n)
+                        except Exception as e:
+                            ctx.violation({"kind": "memmove-large-raises"},
+                                          {"large": True, "S": S, "dst": do_, "src": so, "n": n, "kinds": kinds, "error": repr(e)})
+                            continue
+                        if ba != model:
+                            k = next(i for i in range(total) if ba[i] != model[i])
+                            ctx.violation({"kind": "memmove-large-differs-from-copy-through-buffer",
+                                           "direction": "dst>src" if do_ > so else "dst<src"},
+                                          {"large": True, "S": S, "dst": do_, "src": so, "n": n, "kinds": kinds,
+                                           "first_mismatch": k})
+                        del whole
+    ctx.count("large_memmove_cases", n_cases)
+    return n_cases
+
+
 def run(ctx):
     get_ffi("inline")
     get_ffi("ool")
+    n_large = large_memmove(ctx)
     cov_pass = {}
     tot_states = tot_trans = 0
     maxd = 0
@@ -723,6 +774,7 @@ def run(ctx):
         "exhaustive": True,
         "passes": cov_pass,
         "alphabet_sizes_on_buffer_0_12": asz,
+        "large_overlapping_memmove_cases": n_large,
         "memory_kinds": list(MEMS),
         "rule": "every history of length <= depth over the enabled-op alphabet of each pass (with the stated bound on "
                 "operations outside the core alphabet), for every memory kind; every transition executes the real "
@@ -755,6 +807,19 @@ def _sig(info):
 
 
 def replay(detail):
+    if detail.get("large"):
+        class _C(object):
+            quick = False
+            n = 0
+
+            def count(self, *a):
+                pass
+
+            def violation(self, sig, d):
+                _C.n += 1
+                print("VIOLATED", sig, {k: d[k] for k in ("S", "dst", "src", "n", "kinds")})
+        large_memmove(_C())
+        return 1 if _C.n else 0
     if "history" not in detail or detail.get("cfg") is None:
         print("crash record (no single history to replay):", detail)
         return 1
